@@ -60,6 +60,12 @@ impl Metadata {
     pub fn modified(&self) -> (r: io::Result<SystemTime>)
         ensures (r matches Ok(t) ==> self.spec_mtime() == Some(t@)), (r is Err ==> self.spec_mtime() is None),
     { unimplemented!() }
+    /// std::os::unix::fs::MetadataExt::mtime / mtime_nsec: the same instant as `modified()`, split into whole seconds and
+    /// nanoseconds (two different instants may share their whole seconds)
+    #[verifier::external_body]
+    pub fn mtime(&self) -> (r: i64) ensures self.spec_mtime() matches Some(ns) ==> r as int == ns / 1_000_000_000 { unimplemented!() }
+    #[verifier::external_body]
+    pub fn mtime_nsec(&self) -> (r: i64) ensures self.spec_mtime() matches Some(ns) ==> r as int == ns % 1_000_000_000 { unimplemented!() }
     /// std::os::unix::fs::MetadataExt::size
     #[verifier::external_body]
     pub fn size(&self) -> (r: u64) ensures r == self.spec_size() { unimplemented!() }
